@@ -33,8 +33,19 @@ type Disk struct {
 	ParkPCS  bool
 	ParkSeek bool
 
+	// Bookkeeping makes every batch written to the backend carry one live
+	// record outside the three key spaces under test (key 0xf0, a fresh value
+	// per batch), as every real flush of neo-go carries the current-block
+	// record. See REGISTRY_ENTRY.py ("assumptions") for why: without it the
+	// tiny batches of this engine let goleveldb compact whole tables away, reuse
+	// their file numbers and serve stale cached blocks (timing dependent).
+	Bookkeeping bool
+	nbatch      int
+
 	Gets, Seeks, Batches, GCs, Errors int
 }
+
+var bookkeepingKey = string([]byte{0xf0})
 
 func (d *Disk) Get(k []byte) ([]byte, error) {
 	d.Gets++
@@ -53,6 +64,15 @@ func (d *Disk) PutChangeSet(puts map[string][]byte, stores map[string][]byte) er
 		return ErrInjected
 	}
 	d.Batches++
+	if d.Bookkeeping {
+		d.nbatch++
+		p2 := make(map[string][]byte, len(puts)+1)
+		for k, v := range puts {
+			p2[k] = v
+		}
+		p2[bookkeepingKey] = []byte{byte(d.nbatch), byte(d.nbatch >> 8)}
+		puts = p2
+	}
 	return d.inner.PutChangeSet(puts, stores)
 }
 
